@@ -12,6 +12,14 @@ CHECKS = {
          "Exploration: thousands of generated UFOs (hostile coordinates, nested/mirrored/sheared components) compiled by the real compileOTF under every roundTolerance/cffVersion/optimizeCFF value; each reloaded glyph is compared with an independent exact-rational resolver. Held means: on all executions observed; nothing is claimed about inputs the generator never produced.",
          "Trusts fontTools' CFF reader and RecordingPen; coordinates |v|<=16000, <=14 glyphs, depth<=5; normal form of DESIGN 4.1/4.2.",
          "DESIGN.md section 5 C01, 4.1, 4.2"),
+ "C02": ("runtime monitoring: structural + segment-wise Bezier-distance oracle over reloaded glyf data of generated UFOs; maxp recomputed by own DFS",
+         "Exploration: generated UFOs compiled by the real compileTTF under random convertCubics/reverseDirection/flattenComponents/allQuadratic/cubicConversionError/dropImpliedOnCurves settings; every reloaded glyph is matched point for point (lines, quadratics, on-curve end points, direction) against the exact-rational resolver, each converted cubic is measured against its quadratic run, composites are compared with the (flattened) reference component list, maxp is recomputed.",
+         "Trusts fontTools' glyf reader; distance bound conversionError*upm + sqrt(1/2) + 0.07; 2x2 entries > 2 (not storable) only counted.",
+         "DESIGN.md section 5 C02, 4.3"),
+ "C12": ("runtime monitoring: relation between executions (one UFO compiled under every optimizeCFF x subroutinizer x cffVersion combination; drawings, advances, layout bytes compared pairwise)",
+         "Exploration: each generated UFO is compiled 12 times by the real compileOTF; all supported combinations must reload to the same normal-form drawing per glyph, the same advances (hmtx and, for CFF 1, the charstring's own width) and byte-identical GPOS/GDEF/GSUB; the unsupported combination must raise NotImplementedError.",
+         "Trusts fontTools' CFF/CFF2 reader; default rounding only; normal form of DESIGN 4.1 (strict differences counted).",
+         "DESIGN.md section 5 C12, 4.1"),
 }
 
 NOT_APPLICABLE = [
